@@ -124,7 +124,30 @@ def lex(s: str):
             if k == "[":
                 m = _CSI.match(s, i)
                 if not m:
-                    raise LexError(f"malformed CSI sequence {s[i:i + 12]!r}")
+                    # a control sequence broken by what follows (urwid's last-row insertion
+                    # splits the final byte off the last sequence of a text line): as a
+                    # VT500-style parser does, C0 controls inside a control sequence are
+                    # executed, ESC aborts it and starts the next sequence
+                    j = i + 2
+                    inside = []
+                    while j < n and s[j] != ESC and not ("\x40" <= s[j] <= "\x7e"):
+                        if s[j] == "\b":
+                            inside.append(("left", 1))
+                        elif s[j] in "\0\x0e\x0f" or "\x20" <= s[j] <= "\x3f":
+                            pass
+                        elif s[j] == "\r":
+                            inside.append(("cr",))
+                        elif s[j] == "\n":
+                            inside.append(("lf",))
+                        else:
+                            raise LexError(f"malformed CSI sequence {s[i:i + 12]!r}")
+                        j += 1
+                    if j >= n:
+                        raise LexError("text ends inside a control sequence")
+                    toks.append(("other",))
+                    toks += inside
+                    i = j if s[j] == ESC else j + 1
+                    continue
                 params, inter, final = m.group(1), m.group(2), m.group(3)
                 i = m.end()
                 if inter:
@@ -151,12 +174,17 @@ def lex(s: str):
                 else:
                     raise LexError(f"unknown CSI sequence {params!r}{final!r}")
             elif k in "_]":
-                j = s.find(ESC + "\\", i + 2)
+                # a string ends at ST (ESC \\), at BEL for an OSC, or -- as in a VT500-style
+                # parser -- at any other ESC, which dispatches the string and starts the next
+                # sequence (urwid's last-row insertion can split an ST)
+                j = s.find(ESC, i + 2)
                 jb = s.find("\x07", i + 2) if k == "]" else -1
                 if jb >= 0 and (j < 0 or jb < j):
                     end, nxt = jb, jb + 1
-                else:
+                elif j >= 0 and s[j + 1:j + 2] == "\\":
                     end, nxt = j, j + 2
+                else:
+                    end, nxt = j, j
                 if end < 0:
                     raise LexError("unterminated string sequence")
                 content = s[i + 2:end]
@@ -172,6 +200,9 @@ def lex(s: str):
                 toks.append(("other",))
             elif k in "78=>\\":
                 i += 2          # save / restore cursor, keypad modes, stray ST
+                toks.append(("other",))
+            elif k == ESC:
+                i += 1          # ESC ESC: the first is aborted by the second
                 toks.append(("other",))
             else:
                 raise LexError(f"unknown escape ESC {k!r}")
